@@ -305,7 +305,7 @@ def tally(case, rs, extra):
 
 # ---------------------------------------------------------------- grid part
 GRID_FORMS = ["literal", "set", "dict", "unique", "frequencies", "count_distinct", "group_all", "keys", "values", "items", "len",
-              "memoize", "eqrebuilt", "eqin"]
+              "memoize", "eqrebuilt", "eqin", "memoize_var"]
 
 
 def cases(tier):
@@ -332,11 +332,15 @@ def cases(tier):
             "memoize": 'f := memoize(\\x -> (print("c"); 7)); [%s]' % ", ".join("f(%s)" % s for s in srcs),
             "eqrebuilt": "%s == {%s}" % (lit, ", ".join("%s: %d" % (REPS[alt_rep(k)][1], v) for k, v in final_pairs(ks))) if ks else "{} == {}",
             # `==` and key addressing agree on every pair: a == b exactly when b is found in {a: 0}
+            # a memoized function of any arity: the argument TUPLE is the key - f(a, b), f([a, b]), f(a), f([a]), f() and f([]) are six entries
+            "memoize_var": ('f := memoize(\\...a -> (print("c"); len(a))); [f(%s, %s), f([%s, %s]), f(%s), f([%s]), f(), f([])]' % (srcs[0], srcs[1], srcs[0], srcs[1], srcs[0], srcs[0])) if len(srcs) == 2 else "0",
             "eqin": "[%s]" % ", ".join("[%s == %s, %s in {%s: 0}]" % (a, b, b, a) for a in srcs for b in srcs),
         }
         for form in GRID_FORMS:
             if form == "eqin" and (len(ks) != 2 or any(REPS[k][0] in NAN_CLASSES for k in ks)):
                 continue      # pairs only; NaN is a key equal to itself but not == to itself
+            if form == "memoize_var" and len(ks) != 2:
+                continue
             yield Case(progs[form], {"kind": "grid", "form": form, "ks": ks})
 
 
@@ -418,6 +422,12 @@ def judge_grid(case, rs):
     elif form == "eqrebuilt":
         want = cI(1)
         ok = got == want
+    elif form == "memoize_var":
+        want = ["l", [cI(2), cI(1), cI(1), cI(1), cI(0), cI(1)]]
+        calls = (r.get("o") or "").count("c")
+        ok = got == want and calls == 6
+        if not ok:
+            return [Violation(sig + " result=memo-entries-collide", "%s gave %s with %d body runs; six distinct argument tuples" % (case.steps[0], json.dumps(got)[:120], calls), want, got)]
     elif form == "eqin":
         want = ["l", [["l", [cI(int(REPS[a][0] == REPS[b][0]))] * 2] for a in ks for b in ks]]
         ok = got == want
